@@ -273,15 +273,15 @@ AGG_CELLS = {
     'A1': 4, 'A2': 0, 'A4': 'txt', 'B1': 2.5, 'B2': -3, 'B3': 7, 'B4': 1, 'C1': 2 ** 62, 'C2': 2 ** 62, 'C3': 2 ** 63 - 1, 'C4': 1000,
     'D1': '=B1*2', 'D2': '=B2*2', 'D3': '=B3*2',
     'S1': '=SUM(A1:B4)', 'S2': '=SUM(A1:A4)+SUM(B1:B4)', 'S3': '=SUM(B4:B4,A1:B3)', 'S4': '=SUM(A1:B2,A3:B4)', 'S5': '=SUM(B1,B2,B3,B4,A1:A4)',
-    'S6': '=SUM(B4,B3,B2,B1,A1:A4)', 'AV': '=AVERAGE(A1:B4)', 'MN': '=MIN(A1:B4)', 'MX': '=MAX(A1:B4)', 'CN': '=COUNT(A1:B4)', 'CA': '=COUNTA(A1:B4)',
-    'AV2': '=AVERAGE(B1:B4,A1:A4)', 'MN2': '=MIN(B4,A1:B3)', 'MX2': '=MAX(A1:A4,B1:B4)',
-    'SP': '=SUMPRODUCT(B1:B4,B1:B4)', 'SP2': '=SUMPRODUCT(A1:A2,B1:B4)', 'SP3': '=SUMPRODUCT(B1:B2,B3:B4)',
+    'S6': '=SUM(B4,B3,B2,B1,A1:A4)', 'T1': '=AVERAGE(A1:B4)', 'T2': '=MIN(A1:B4)', 'T3': '=MAX(A1:B4)', 'T4': '=COUNT(A1:B4)', 'T5': '=COUNTA(A1:B4)',
+    'T6': '=AVERAGE(B1:B4,A1:A4)', 'T7': '=MIN(B4,A1:B3)', 'T8': '=MAX(A1:A4,B1:B4)',
+    'U1': '=SUMPRODUCT(B1:B4,B1:B4)', 'U2': '=SUMPRODUCT(A1:A2,B1:B4)', 'U3': '=SUMPRODUCT(B1:B2,B3:B4)',
     'L1': '=SUM(C1:C2)', 'L2': '=SUM(C1:C1)+SUM(C2:C2)', 'L3': '=SUM(C3:C4)', 'L4': '=SUM(C3,C4)', 'L5': '=SUM(C3:C3,1000)', 'L6': '=MAX(C1:C4)',
     'H1': '=SUM(D1:D2,D3)', 'H2': '=MAX(D1:D3)', 'H3': '=AVERAGE(D1:D3)', 'H4': '=MIN(D1:D3)+COUNT(D1:D3)',
 }
 AGG_EXPECTED = {
-    'S1': 11.5, 'S2': 11.5, 'S3': 11.5, 'S4': 11.5, 'S5': 11.5, 'S6': 11.5, 'AV': 11.5 / 6, 'MN': -3, 'MX': 7, 'CN': 6, 'CA': 7, 'AV2': 11.5 / 6,
-    'MN2': -3, 'MX2': 7, 'SP': 65.25, 'SP2': '#VALUE!', 'SP3': 2.5 * 7 - 3,
+    'S1': 11.5, 'S2': 11.5, 'S3': 11.5, 'S4': 11.5, 'S5': 11.5, 'S6': 11.5, 'T1': 11.5 / 6, 'T2': -3, 'T3': 7, 'T4': 6, 'T5': 7, 'T6': 11.5 / 6,
+    'T7': -3, 'T8': 7, 'U1': 65.25, 'U2': '#VALUE!', 'U3': 2.5 * 7 - 3,
     'L1': 2 ** 63, 'L2': 2 ** 63, 'L3': 2 ** 63 + 999, 'L4': 2 ** 63 + 999, 'L5': 2 ** 63 + 999, 'L6': 2 ** 63 - 1,
     'H1': 13, 'H2': 14, 'H3': 13 / 3, 'H4': -3,
 }
@@ -304,8 +304,8 @@ def rule_7(ctx):
                    f'{a} = {AGG_CELLS[a]} evaluates to {got!r}, expected {w!r}: the fold of exactly the addressed values - blanks and texts of a range '
                    'ignored, a stored 0 counted, however the cells are split into ranges and scalars and whatever their magnitude')
     steps = [('eval', 'H1'), ('eval', 'H2'), ('eval', 'S1'), ('set', 'B2', 40), ('eval', 'D2'), ('eval', 'H1'), ('eval', 'H2'), ('eval', 'H3'), ('eval', 'S1'),
-             ('eval', 'MN'), ('set', 'A1', -100), ('eval', 'S1'), ('eval', 'MN'), ('eval', 'AV'), ('eval', 'H4'), ('set', 'B3', 0), ('eval', 'H1'), ('eval', 'SP')]
-    hist = {k: v for k, v in AGG_CELLS.items() if k[0] in 'ABD' or k in ('H1', 'H2', 'H3', 'H4', 'S1', 'MN', 'AV', 'SP')}
+             ('eval', 'T2'), ('set', 'A1', -100), ('eval', 'S1'), ('eval', 'T2'), ('eval', 'T1'), ('eval', 'H4'), ('set', 'B3', 0), ('eval', 'H1'), ('eval', 'U1')]
+    hist = {k: v for k, v in AGG_CELLS.items() if k[0] in 'ABD' or k in ('H1', 'H2', 'H3', 'H4', 'S1', 'T2', 'T1', 'U1')}
     S.check_history(ctx, anchor, 'aggregate history', hist, steps, cache={}, check_stored=False,
                     why='An aggregate is the fold of the values its cells hold now.')
     ctx.floor(40, 'aggregate cells + history steps')
